@@ -30,8 +30,8 @@ CHECKS.update({
     "C04": simcheck("§4 C04", "Generated deadlines on the tick grid with requests and sweeps landing before/at/after them; oracle O1-O4: no pending answer at or after the deadline, no time-out stored or reported before it, timed-out rows have empty value / no key / completed_on = timeout / resolve-on-timeout honoured, caller state never installed at or after the deadline. F13 (new promise already overdue answered 201 PENDING) is a listed known finding."),
     "C06": dict(engine="sim", category="fault_enumeration", design="§4 C06",
                 technique="property-based testing with crash-point enumeration: each generated case is re-run from its recorded decisions once per crash opportunity; invariant oracle over snapshots before/after restart",
-                text="Tier (a): every generated case (workload + schedule) is executed once to count its crash opportunities (before/after every store commit, between any two coroutine steps, inside background sweeps, at flush ends) and then re-executed from the recorded decisions with a crash at each of them (all of them when <= cap, evenly sampled otherwise; thorough cap 400), followed by a deterministic recovery on the same database file with an optional second crash. Oracle D1-D4: acknowledged => committed, restart changes nothing, no committed state is torn (registrations of completed promises, routed promise without task, request effect spread over two transactions), stored backlog is worked off after restart.",
-                note=SIM_NOTE + " SQLite's fsync/atomic-commit is trusted: a 'crash' drops the kernel with everything in flight and reopens the file. Real process kills are tier (b) (proc engine) when registered."),
+                text="Tier (a): every generated case (workload + schedule) is executed once to count its crash opportunities (before/after every store commit, between any two coroutine steps, inside background sweeps, at flush ends) and then re-executed from the recorded decisions with a crash at each of them (all of them when <= cap, evenly sampled otherwise; thorough cap 400), followed by a deterministic recovery on the same database file with an optional second crash. Oracle D1-D4: acknowledged => committed, restart changes nothing, no committed state is torn (registrations of completed promises, routed promise without task, request effect spread over two transactions), stored backlog is worked off after restart. Tier (b): real process, default store configuration, SIGKILL under load / SIGTERM / SIGINT, 1-3 kill-restart rounds, read-back of every acknowledged create/complete/subscription/schedule/lock, torn-state check on the database file, background sweep resumes.",
+                note=SIM_NOTE + " SQLite's fsync/atomic-commit is trusted: a 'crash' drops the kernel with everything in flight and reopens the file. Tier (b) runs a real `resonate serve` (default store configuration) that is SIGKILLed at a drawn wall-clock instant under load or shut down with SIGTERM/SIGINT, restarted on the same file, and every acknowledged write read back (not reproducible in its timing; acknowledged set and server log are saved)."),
     "C07": simcheck("§4 C07", "Generated claim/complete/heartbeat traffic of two workers with current, stale and future counters against lease sweeps, dispatch cycles and promise completion; oracle T1-T6: claims only from unclaimed+matching counter, one success per (task,counter), counters monotone, finished is final, a holder loses the task only after its guaranteed lease (claim or last timely heartbeat + ttl), by its own completion, task time-out or promise completion; refusals justified by a committed state in the window."),
     "C08": simcheck("§4 C08", "Generated routed/unrouted creations, create-with-task, registrations, completions and claims with the real sender worker and every hand-off outcome, router failures and task batch sizes; oracle B1-B6: invocation task born in the promise's transaction iff the tags route (reference predicate), outstanding tasks finished in the completing transaction, dispatch cycles pick only unclaimed tasks, one per root, none with an enqueued/claimed sibling, enqueued only after success, failed hand-off => attempt+1 and later retry, notify finished after its first attempt, message names (id,counter,links), and every task transition has a cause. Found F18 and F19 (repaired)."),
     "C09": simcheck("§4 C09", "Generated acquire/release/heartbeat of 3 executions x 2 processes on 2 resources with ttl 0..3s, sweeps and clock steps onto lease ends; oracle L1-L5: every response decided on the pre-state of its transaction by a reference model from the statement; the locks table changes only by the holder's release / re-acquire, its process's heartbeat (lease = clock + ttl), or expiry at a tick >= lease end."),
@@ -54,6 +54,10 @@ CHECKS.update({
                 technique="grammar + dictionary mutation fuzzing of a real server process over HTTP and gRPC, stateful poison-pill scenarios, restart on the same database, automatic bisection of a failing batch to a minimal request list",
                 text="A real `resonate serve` built from the tree. Generated batches of scenarios: valid skeletons of every endpoint of both protocols x one mutation (absent, empty, null, negative, 0, +-2^31, +-2^63, 1e100, wrong type, 64 KiB, hostile dictionary: JSON literals, template syntax, separators, receivers of every shape, URLs, cron oddities, forged/damaged cursors), and stateful scenarios that store hostile data and trigger its later processing (routing, time-out, registration conversion + dispatch through the real sender/poll/http plugins, schedule firing). After each batch: > 10 background cycles, health check, kill, restart on the same file, cycles, health check. Oracle: process alive and answering, every request answered, certainly-invalid requests answered 400/InvalidArgument leaving no row, no 5xx for client input. A death or wedge is bisected on fresh servers to a minimal request list. Found and repaired F2, F4, F7, F8, F9, F10 (and F6, F11 through C19/C18).",
                 note="Timing is wall-clock (background cycle 200 ms, waits of 2.6 s / 1.5 s); a slow machine can make a health check miss a deadline: such runs show as wedge reports whose bisection does not reproduce. The dictionary is the corpus; absence of further crashes is not established."),
+    "C20": dict(engine="proc", category="exploration", design="§5 C20",
+                technique="property-based round-trip testing (rapid) against a real server process: write through one protocol, read through both, incl. messages received by a real poll listener, and again after a restart",
+                text="Unicode-heavy ids/keys/maps (separators, markup, quotes, spaces, dots, combining marks, astral, bidi/zero-width, template and JSON syntax, NUL via gRPC), data bytes of every value up to 4 KiB, time-outs over the whole int64 range; written via HTTP or gRPC and read via both: read, search, completion value, claim payload, invoke and notify bodies received by a real SSE listener, schedule read and the promises a schedule creates; everything re-read after a restart; ids differing only in case / whitespace / trailing slash / normalisation form / percent-encoding must be distinct promises; derived ids embed the client id verbatim. Found F3 (HTML-escaped schedule ids), repaired.",
+                note="Idempotency keys written through HTTP are restricted to header-safe strings (HTTP trims and forbids control characters in header values: a transport limit, not the server's). Receiver descriptions are not returned by any read; they are checked through delivery to the listener they name."),
     "C15": dict(engine="front", category="exploration", design="§5 C15",
                 technique="exhaustive enumeration of the (endpoint x kernel status x response shape x delivery) matrix against a stub kernel, plus property-based differential testing (rapid) of HTTP vs gRPC request translation",
                 text="Part 1 enumerates completely, on every run, every endpoint of both protocols x every StatusCode constant (parsed from t_api/status.go at run time) x every response shape the operation's coroutine can return, delivered as response status and as t_api.Error, through the real gin handler and the real gRPC service methods: no panic / dropped reply, HTTP code = status/100 with a parsable error body carrying the status, gRPC OK message or the documented code class, outcome flags consistent with the status. Part 2 generates well-formed requests in both protocols and requires the same t_api.Request to reach the kernel. Found F5 (statuses missing from tables; released flag), repaired.",
